@@ -124,7 +124,7 @@ func readXAR(data []byte) (*Payload, error) {
 	}
 	p := &Payload{Type: "xar"}
 	hdr := append([]byte(nil), data[:28]...)
-	for i := 8; i < 24; i++ { // toc lengths change with the toc
+	for i := 8; i < 28; i++ { // toc lengths change with the toc; cksum_alg belongs to the toc <checksum>
 		hdr[i] = 0
 	}
 	p.add("header", "", hdr)
